@@ -698,7 +698,7 @@ pub fn check_adaptors(cx: &mut Cx, rng: &mut Rng, abs: &Abs) -> R {
 }
 
 pub fn case(cx: &mut Cx, rng: &mut Rng) -> R {
-    let nmax = if cx.small { 6 } else if rng.chance(1, 10) { 13 } else { 8 };
+    let nmax = if cx.small { 6 } else if rng.chance(1, if cx.thorough { 40 } else { 150 }) { 70 } else if rng.chance(1, 10) { 13 } else { 8 };
     let o = GenOpts::new(nmax);
     let abs = gen(rng, &o);
     cx.log(|| abs.describe());
